@@ -320,11 +320,24 @@ fn log_main() {
   }
   let dispatch = pipe.subscriber.clone();
   let logger: Arc<dyn log::Log> = Arc::from(std::mem::replace(&mut pipe.log, Box::new(NopLog)));
+  // The static fast path of both front ends: `log::log!` compares with `log::max_level()` and
+  // `tracing::event!` with the most verbose `max_level_hint` before the logger / subscriber is
+  // asked at all; `init_from_file` sets both from this value. (Nothing is installed globally
+  // here, so the harness applies the comparison itself.)
+  let front_end_max = pipe.max_level;
   let mut emitters = vec![];
   for (t, evs) in sc.emitters.iter().enumerate() {
     let (evs, dispatch, logger) = (evs.clone(), dispatch.clone(), logger.clone());
     emitters.push(shuttle::thread::spawn(move || {
       for e in &evs {
+        let tr_level = match e.level {
+          1 => Level::ERROR,
+          2 => Level::WARN,
+          3 => Level::INFO,
+          4 => Level::DEBUG,
+          _ => Level::TRACE,
+        };
+        let passes_front_end = tr_level <= front_end_max;
         let id = NEXT_ID.with(|n| {
           let v = n.get();
           n.set(v + 1);
@@ -332,7 +345,9 @@ fn log_main() {
         });
         let msg = format!("{}{}", marker(id), e.msg);
         let inv = next_seq();
-        if e.via_log {
+        if !passes_front_end {
+          // discarded by the macro's static check: the pipeline never sees it
+        } else if e.via_log {
           let lvl = match e.level {
             1 => log::Level::Error,
             2 => log::Level::Warn,
@@ -340,8 +355,7 @@ fn log_main() {
             4 => log::Level::Debug,
             _ => log::Level::Trace,
           };
-          // what `log::log!` does after its max-level check (the harness keeps the global
-          // max level at Trace, see DESIGN.md)
+          // what `log::log!` does after its max-level check
           logger.log(&log::Record::builder().args(format_args!("{}", msg)).level(lvl).target(TARGETS[e.target as usize]).module_path(Some("sim")).file(Some("sim.rs")).line(Some(1)).build());
         } else {
           let meta = callsite_meta(e.target, e.level);
